@@ -61,3 +61,58 @@ Theorem C06_pipeline :
          end.
 Proof. exact PipelineRun.pipeline_values. Qed.
 Print Assumptions C06_pipeline.
+
+From YG Require Import LRBase CompleteDriver LR0Build LASuperset ViablePrefix.
+Close Scope Z_scope.
+Open Scope nat_scope.
+
+(* the symbols on a well-formed stack followed by a symbol the top state can shift are a viable prefix: part of a sentential form derived from the start symbol (soundness of LR(1) items over access paths, for the automaton built by LR0Build.build) *)
+Theorem C06_shift_extends_viable_prefix :
+  forall (g : grammar) (aut : automaton) (S0 : nat),
+         (forall r d : nat, nth_error (rhs_of g r) d <> Some 0) ->
+         lhs_of g 0 = 0 ->
+         (forall r d : nat, nth_error (rhs_of g r) d <> Some eof) ->
+         rhs_of g 0 = [S0] ->
+         ~ is_nt g eof ->
+         (forall (seq : list nat) (l : nat), ~ is_nt g l -> exists b : nat, first_seq g (seq ++ [l]) b) ->
+         build g = Some aut ->
+         forall (gamma : list nat) (q a q' : nat),
+         path aut 0 gamma q ->
+         goto aut q a = Some q' -> exists beta : list nat, derives g [0] (gamma ++ a :: beta).
+Proof. exact ViablePrefix.shift_extends. Qed.
+Print Assumptions C06_shift_extends_viable_prefix.
+
+From YG Require Import LRBase CompleteDriver LR0Build LASuperset ViablePrefix.
+Close Scope Z_scope.
+Open Scope nat_scope.
+
+(* the error is reported at the first bad token: after any number of steps of the LR machine from the initial configuration on input w - for ANY table satisfying the certificate, i.e. any lookahead sets and precedences - if the next action shifts the next token a, then the input read so far followed by a begins a sentence (every symbol productive: C12); so a token that cannot continue any sentence is never shifted, and since an Error cell stops the machine nothing after it is requested *)
+Theorem C06_never_shifts_a_bad_token :
+  forall (g : grammar) (aut : automaton) (S0 : nat) (tab : table),
+         (forall r d : nat, nth_error (rhs_of g r) d <> Some 0) ->
+         lhs_of g 0 = 0 ->
+         (forall r d : nat, nth_error (rhs_of g r) d <> Some eof) ->
+         rhs_of g 0 = [S0] ->
+         ~ is_nt g eof ->
+         (forall (seq : list nat) (l : nat), ~ is_nt g l -> exists b : nat, first_seq g (seq ++ [l]) b) ->
+         build g = Some aut ->
+         cert g aut tab ->
+         (forall X : nat, exists z : list nat, terminal_string g z /\ derives g [X] z) ->
+         forall (n : nat) (w : list nat) (stk : list (nat * nat)) (a : nat) (inp' reds : list nat) (q' : nat),
+         nsteps n tab g ([(0, eof)], w, []) = Some (stk, a :: inp', reds) ->
+         tab (top_state stk) a = Shift q' ->
+         exists pre z : list nat, w = pre ++ a :: inp' /\ terminal_string g z /\ derives g [0] (pre ++ a :: z).
+Proof. exact ViablePrefix.run_never_shifts_a_bad_token. Qed.
+Print Assumptions C06_never_shifts_a_bad_token.
+
+From YG Require Import LRBase ViablePrefix.
+Close Scope Z_scope.
+Open Scope nat_scope.
+
+(* (step, the configuration-to-configuration function of that statement, is one iteration of the machine LRBase.run of the other theorems) *)
+Theorem C06_step_is_run :
+  forall (f : nat) (tab : table) (g : grammar) (stk : list (nat * nat)) (inp reds : list nat)
+           (s : list (nat * nat)) (i r : list nat),
+         step tab g (stk, inp, reds) = Some (s, i, r) -> run (S f) tab g stk inp reds = run f tab g s i r.
+Proof. exact ViablePrefix.run_step. Qed.
+Print Assumptions C06_step_is_run.
